@@ -1,7 +1,7 @@
 (* Property C14 — messages arrive within the configured latency window, in
    order on equal latency.  Statements only; proofs in C14_proofs.v. *)
 From TV.Lib Require Import Base.
-From TV.Link Require Import Model Facts C08_proofs C14_proofs C14_e2e Gen.
+From TV.Link Require Import Model Facts Topo_proofs Topo_run C03_topo C08_proofs C14_proofs C14_e2e C14_topo Gen.
 Open Scope N_scope.
 
 (* Every sampled delay lies in the effective latency range of the link, for
@@ -123,6 +123,20 @@ Proof.
   intros es g H. split; [apply c14_noop_erasure_lemma; [exact H|exact (healthy_init 0)|exact (all_after_init 0)]|apply erase_c14; exact H].
 Qed.
 
+(* The lower bound on the whole topology: while the clock of the pair's link is
+   below (link time at the send) + (the sampled delay) the message is handed to
+   NO host, for every topology history whose projection on that pair is a
+   healthy-link history. *)
+Theorem c14_topology_not_early : forall t es1 src dst id x p es2,
+  let q := pair_of src dst in
+  let es := es1 ++ TSend src dst id x false p :: es2 in
+  fresh_topo t -> Forall no_reg es -> Forall c14_event (proj q es) -> NoDup (tsend_ids es) ->
+  let r1 := run (tg t) init (proj q es1) in
+  let r := run (tg t) init (proj q es) in
+  lnow (fin r) < lnow (fin r1) + delay (gfin r1) (fin r1) x ->
+  ~ In id (touts t es).
+Proof. exact c14_topology_not_early_lemma. Qed.
+
 (* Non-vacuity; the default configuration read from config.rs satisfies lmin <= lmax. *)
 Definition gdef := {| lmin := default_min_latency_ms * ms; lmax := default_max_latency_ms * ms |}.
 Definition hfifo := [Send AB 1 3 false false; Tick ms; Send AB 2 2 false false; Tick (5 * ms); Drain true].
@@ -152,4 +166,5 @@ Print Assumptions c14_delivered.
 Print Assumptions c14_not_early.
 Print Assumptions c14_on_time.
 Print Assumptions c14_noop_erasure.
+Print Assumptions c14_topology_not_early.
 Print Assumptions c14_nonvacuous.
